@@ -14,7 +14,7 @@ From Coq Require Import ZifyBool ZifyNat ZifyN Lia.
 Open Scope Z_scope.
 
 Lemma fexp_cons c s : (c = 32 \/ c = 41 \/ c = 93 \/ c = 44 \/ c = 58 \/ c = 124 \/ c = 125)%N -> fexp (c :: s).
-Proof. intros H. exact H. Qed.
+Proof. intros H. cbn. tauto. Qed.
 
 Section Comb.
 Variable uni_letter uni_digit : Z -> bool.
